@@ -637,3 +637,35 @@ Proof.
   - replace (Z.to_nat (i - 1)) with 0%nat by lia. cbn [while_x]. unfold gpi_step at 1.
     assert (E3 : 0 <=? i - 1 = false) by (apply Z.leb_gt; lia). rewrite E3. cbn [bind]. replace (Z.to_nat i) with 0%nat by lia. reflexivity.
 Qed.
+
+(* ---- ref_var_overlaps_var: Variant.any_pos with the bound method ref_pos_overlaps_var as its callback ---- *)
+Lemma any_scan g l : any_res (ref_pos_overlaps_var g) l <> Err OtherErr ->
+  any_m (fun x => do t <- k_gpo_ref_pos_overlaps_var (kgpo_of g) x; Ok t) l = any_res (ref_pos_overlaps_var g) l.
+Proof.
+  induction l as [|x l IH]; intros H; cbn [any_m any_res]; [reflexivity|].
+  cbn [any_res] in H.
+  assert (Hx : g_start g <= x).
+  { assert (H0 : ref_pos_overlaps_var g x <> Err OtherErr) by (intros E; rewrite E in H; now apply H).
+    unfold ref_pos_overlaps_var in H0. apply mget_not_other in H0. lia. }
+  rewrite k_gpo_ref_pos_overlaps_var_eq by exact Hx.
+  destruct (ref_pos_overlaps_var g x) as [b|e]; cbn [bind]; [|reflexivity].
+  cbn [bind] in H. destruct b; [reflexivity|]. apply IH. exact H.
+Qed.
+
+Theorem k_gpo_ref_var_overlaps_var_eq g v :
+  ref_var_overlaps_var g (v_pos v) (zlen (v_ref v)) <> Err OtherErr ->
+  k_gpo_ref_var_overlaps_var (kgpo_of g) v = ref_var_overlaps_var g (v_pos v) (zlen (v_ref v)).
+Proof.
+  unfold k_gpo_ref_var_overlaps_var, k_var_any_pos, ref_var_overlaps_var, kg_var_ref_range, kg_var_ref_end, kg_var_ref_len, kg_get_end, kg_clamp_non_negative, v_ref_s.
+  cbn [bind]. rewrite !slen_dna'.
+  destruct (1 <? zlen (v_ref v)); cbn [bind].
+  - fold (get_end (v_pos v) (zlen (v_ref v))).
+    destruct (mk_range (v_pos v) (get_end (v_pos v) (zlen (v_ref v)))) as [rr|e]; cbn [bind]; [|reflexivity].
+    unfold k_range_positions. cbn [bind]. fold (zrange (rs rr) (re rr + 1)). fold (positions rr).
+    intros H. rewrite (any_scan g (positions rr) H).
+    destruct (any_res (ref_pos_overlaps_var g) (positions rr)); reflexivity.
+  - intros H. assert (Hx : g_start g <= v_pos v).
+    { unfold ref_pos_overlaps_var in H. apply mget_not_other in H. lia. }
+    rewrite k_gpo_ref_pos_overlaps_var_eq by exact Hx.
+    destruct (ref_pos_overlaps_var g (v_pos v)); reflexivity.
+Qed.
